@@ -82,11 +82,14 @@ def build_obj(spec, rng_seed, twin=False):
                 from skcriteria.utils import rank
                 s = (np.asarray(matrix, dtype=float) ** hparams.p) @ np.asarray(weights, dtype=float)
                 return rank.rank_values(s, reverse=True), {"score": s}
+            UserAgg(p=5)            # somebody else configured one of these differently: no business of ours
+            UserAgg().copy(p=7)
             return UserAgg()
 
         @mktransformer(k=3.0)
         def UserT(matrix, hparams, **kwargs):
             return {"matrix": np.asarray(matrix, dtype=float) * hparams.k}
+        UserT(k=10.0)
         return UserT()
     raise KeyError(kind)
 
@@ -278,6 +281,11 @@ def run_seq(case):
         ref = describe_out(call(build_obj(case["spec"], case["oseed"]), probe))
         s0 = state_of(obj)
         problems = []
+        if case["spec"]["kind"] == "user":
+            want = {"p": 2} if case["spec"]["which"] == "agg" else {"k": 3.0}
+            if dict(obj.get_parameters()) != want:
+                problems.append(f"a fresh user-made method with default hyper-parameters reports {obj.get_parameters()} "
+                                f"(declared defaults {want})")
         for k, item in enumerate(case["seq"]):
             dm = probe if item == "PROBE" else mk(item)
             if k == case.get("derive_at") and hasattr(obj, "get_parameters"):
